@@ -1,4 +1,5 @@
 import SignalGen.Eq.BitDepth
+import SignalGen.Gen.Kernels
 /-!
 # Regenerated tie, C09: `SignedAsFloat` / `UnsignedAsFloat` per sample, as the Go source defines them now, are the model's `s2fK` / `u2fK` for every sample, integer type and float format
 -/
